@@ -9,6 +9,8 @@ import JediVerif.Spec.Pairing
 import JediVerif.Spec.Rand
 import JediVerif.Impl.ConstsFq
 import JediVerif.Gen.AsmX86
+import JediVerif.Gen.AsmA64
+import JediVerif.Gen.AsmV6M
 import JediVerif.Impl.FpUtils
 
 namespace Jedi.Driver
@@ -148,6 +150,62 @@ def asmModel (routine : String) (resWords : Nat) (inputs consts : List (Nat × N
   | none => throw s!"model: no generated program for {sym}"
   | some prog => X86.callRoutine prog resWords inputs consts scalars alias
 
+/-! The AArch64 and ARMv6-M assembly sources cannot be executed here.  Their instruction-level models
+(`Impl/A64.lean`, `Impl/Thumb1.lean` running the programs regenerated from the sources by
+`translate/arm2lean.py`, `Gen/AsmA64.lean`, `Gen/AsmV6M.lean`) are run on the operands of the op line of
+the routine they correspond to, and must give the REAL output of the back end under test token for
+token: `asm add/sub/dbl/mul/sqr/mred` (the x86-64 routines called directly) for bigint_384_add /
+_subtract / _multiply2, bigint_768_multiply / _square, fpbase_384_montgomery_reduce, and `fp_mul Fq` /
+`fp_sqr Fq` (FpBase<384>::multiply / square of whatever back end the harness was built with) for the
+fused fpbase_384_multiply / _square, which exist only on the ARM targets. -/
+
+/-- the argument list the judge passes must have the shape of the extern "C" prototype in the headers -/
+def sigCheck (sym : String) (sig : Option (String × List String)) (nPtr nScalar : Nat) (ret : String) : Except String Unit := do
+  match sig with
+  | none => throw s!"model: no prototype for {sym}"
+  | some (r, ps) =>
+    let isPtr (t : String) : Bool := t == "void*" || t == "const void*"
+    if ps.length != nPtr + nScalar || !(ps.take nPtr).all isPtr || (ps.drop nPtr).any isPtr then
+      throw s!"model: the prototype of {sym} ({ps}) is not {nPtr} pointers followed by {nScalar} integers"
+    if (ret == "bool") != (r == "bool") || (ret == "none") != (r == "void") then
+      throw s!"model: the return type {r} of {sym} is not what the judge compares ({ret})"
+
+/-- `ret`: "bool" (low byte of the result register ≠ 0), "word" (the result register as the C type of
+the prototype) or "none"; the tokens are the ones the harness prints for the x86-64 routine -/
+def a64Toks (routine : String) (resLimbs : Nat) (inputs consts : List (Nat × Nat)) (scalars : List Nat)
+    (alias ret : String) : Except String (List String) := do
+  let sym := "embedded_pairing_core_arch_aarch64_" ++ routine
+  match Gen.AsmA64.lookup sym with
+  | none => throw s!"A64 model: no generated program for {sym}"
+  | some prog =>
+    sigCheck sym (Gen.AsmA64.signature sym) (1 + inputs.length + consts.length) scalars.length ret
+    let (x0, v) ← A64.callRoutine prog resLimbs inputs consts (scalars.map (BitVec.ofNat 64)) alias
+    let r := if ret == "bool" then [boolTok (x0.toNat % 256 != 0)] else if ret == "word" then [toString x0.toInt] else []
+    pure (r ++ [toHex (16 * resLimbs) v])
+
+/-- same for ARMv6-M: every 64-bit limb is two 32-bit words (little-endian word order, as BigInt stores
+them), integer arguments are the low 32 bits.  `callerWords`: words of the caller's frame the routine
+is allowed to read above its stack arguments (see bigint_768_multiply below). -/
+def v6mToks (routine : String) (resLimbs : Nat) (inputs consts : List (Nat × Nat)) (scalars : List Nat)
+    (alias ret : String) (callerWords : Nat := 0) : Except String (List String) := do
+  let sym := "embedded_pairing_core_arch_armv6_m_" ++ routine
+  match Gen.AsmV6M.lookup sym with
+  | none => throw s!"Thumb-1 model: no generated program for {sym}"
+  | some prog =>
+    sigCheck sym (Gen.AsmV6M.signature sym) (1 + inputs.length + consts.length) scalars.length ret
+    let w2 (l : List (Nat × Nat)) := l.map fun (v, n) => (v, 2 * n)
+    let (r0, v, _) ← Thumb1.callRoutine prog (2 * resLimbs) (w2 inputs) (w2 consts) (scalars.map (BitVec.ofNat 32)) alias callerWords
+    let r := if ret == "bool" then [boolTok (r0.toNat % 256 != 0)] else if ret == "word" then [toString r0.toNat] else []
+    pure (r ++ [toHex (16 * resLimbs) v])
+
+/-- both ARM models against the real output `out` of the line -/
+def armTies (what routine : String) (resLimbs : Nat) (inputs consts : List (Nat × Nat)) (scalars : List Nat)
+    (alias ret : String) (out : List String) (v6mCallerWords : Nat := 0) : Except String Unit := do
+  let ta ← a64Toks routine resLimbs inputs consts scalars alias ret
+  expectToks s!"{what}: instruction-level model of the AArch64 routine {routine} vs the real output of this back end" ta out
+  let tt ← v6mToks routine resLimbs inputs consts scalars alias ret v6mCallerWords
+  expectToks s!"{what}: instruction-level model of the ARMv6-M routine {routine} vs the real output of this back end" tt out
+
 /-- direct calls of the assembly routines: same contracts as the portable code (384-bit, modulus q);
 and the interpreter running the generated program must reproduce the real routine's output exactly
 (for all operands, also those outside the contract). -/
@@ -162,14 +220,17 @@ def judgeAsm (out : List String) : P Unit := do
              expectToks "asm add" [toString ((a + b) / m), toHex 96 ((a + b) % m)] out
              let (rax, v) ← asmModel "bigint_384_add" 6 [(a, 6), (b, 6)] [] [] al
              tie fn [boolTok (rax.toNat % 256 != 0), toHex 96 v]
+             armTies "asm add" "bigint_384_add" 6 [(a, 6), (b, 6)] [] [] al "bool" out
   | "sub" => let a ← nextHex; let b ← nextHex; let al ← next
              expectToks "asm sub" [if a < b then "1" else "0", toHex 96 ((a + m - b) % m)] out
              let (rax, v) ← asmModel "bigint_384_subtract" 6 [(a, 6), (b, 6)] [] [] al
              tie fn [boolTok (rax.toNat % 256 != 0), toHex 96 v]
+             armTies "asm sub" "bigint_384_subtract" 6 [(a, 6), (b, 6)] [] [] al "bool" out
   | "dbl" => let a ← nextHex; let al ← next
              expectToks "asm dbl" [toString ((2 * a) / m), toHex 96 ((2 * a) % m)] out
              let (rax, v) ← asmModel "bigint_384_multiply2" 6 [(a, 6)] [] [] al
              tie fn [toString rax.toInt, toHex 96 v]
+             armTies "asm dbl" "bigint_384_multiply2" 6 [(a, 6)] [] [] al "word" out
   | "fpadd" => let a ← nextHex; let b ← nextHex; let al ← next
                if a < q && b < q then expectToks "asm fpadd" [toHex 96 ((a + b) % q)] out
                let (_, v) ← asmModel "fpbase_384_add" 6 [(a, 6), (b, 6)] [pq] [] al
@@ -185,9 +246,13 @@ def judgeAsm (out : List String) : P Unit := do
   | "mul" => let fam ← next; let a ← nextHex; let b ← nextHex; expectToks "asm mul" [toHex 192 (a * b)] out
              let (_, v) ← asmModel (if fam == "bmi2" then "bmi2_adx_bigint_768_multiply" else "bigint_768_multiply") 12 [(a, 6), (b, 6)] [] [] "n"
              tie s!"{fn} {fam}" [toHex 192 v]
+             -- the ARMv6-M routine executes `ldr r4, [sp, #36]` (multiply.s:423), a load of the word at the
+             -- caller's SP, although it has no stack argument: one word of the caller's frame is made readable
+             armTies "asm mul" "bigint_768_multiply" 12 [(a, 6), (b, 6)] [] [] "n" "none" out 1
   | "sqr" => let fam ← next; let a ← nextHex; expectToks "asm sqr" [toHex 192 (a * a)] out
              let (_, v) ← asmModel (if fam == "bmi2" then "bmi2_adx_bigint_768_square" else "bigint_768_square") 12 [(a, 6)] [] [] "n"
              tie s!"{fn} {fam}" [toHex 192 v]
+             armTies "asm sqr" "bigint_768_square" 12 [(a, 6)] [] [] "n" "none" out
   | "mred" =>
     let fam ← next; let t ← nextHex
     if t < q * m then
@@ -196,6 +261,9 @@ def judgeAsm (out : List String) : P Unit := do
     let (_, v) ← asmModel (if fam == "bmi2" then "bmi2_adx_fpbase_384_montgomery_reduce" else "fpbase_384_montgomery_reduce") 6 [(t, 12)] [pq]
       [BitVec.ofNat 64 Gen.Consts.fq_inv_var] "n"
     tie s!"{fn} {fam}" [toHex 96 v]
+    -- different back ends need only agree inside the contract T < q·2^384
+    if t < q * m then
+      armTies "asm mred" "fpbase_384_montgomery_reduce" 6 [(t, 12)] [pq] [Gen.Consts.fq_inv_var] "n" "none" out
   | _ => throw s!"unknown asm routine {fn}"
 
 /-! ### prime fields.  One generic judge, instantiated for Fq and Fr. -/
@@ -233,10 +301,21 @@ def judgeFp (op : String) (out : List String) : P Unit := do
   match op with
   | "fp_add" => let a ← f.next; let b ← f.next; let _ ← next; expectToks op [f.hex (a + b)] out
   | "fp_sub" => let a ← f.next; let b ← f.next; let _ ← next; expectToks op [f.hex (a - b)] out
-  | "fp_mul" => let a ← f.next; let b ← f.next; let _ ← next; expectToks op [f.hex (a * b)] out
+  | "fp_mul" =>
+    let ra ← nextHex; let rb ← nextHex; let a ← f.un ra; let b ← f.un rb; let al ← next
+    expectToks op [f.hex (a * b)] out
+    -- the fused ARM routines are the FpBase<384>::multiply of their targets: same raw limbs in, same raw limbs out
+    if f.bits == 384 then
+      armTies "fp_mul Fq" "fpbase_384_multiply" 6 [(ra, 6), (rb, 6)] [(Gen.Consts.fq_modulus_var, 6)] [Gen.Consts.fq_inv_var]
+        (if al == "a" || al == "b" || al == "ab" then al else "n") "none" out
   | "fp_dbl" => let a ← f.next; let _ ← next; expectToks op [f.hex (a + a)] out
   | "fp_neg" => let a ← f.next; let _ ← next; expectToks op [f.hex (-a)] out
-  | "fp_sqr" => let a ← f.next; let _ ← next; expectToks op [f.hex (a * a)] out
+  | "fp_sqr" =>
+    let ra ← nextHex; let a ← f.un ra; let al ← next
+    expectToks op [f.hex (a * a)] out
+    if f.bits == 384 then
+      armTies "fp_sqr Fq" "fpbase_384_square" 6 [(ra, 6)] [(Gen.Consts.fq_modulus_var, 6)] [Gen.Consts.fq_inv_var]
+        (if al == "a" then al else "n") "none" out
   | "fp_inv" =>
     let raw ← nextHex; let a ← f.un raw; let _ ← next
     let i := f.inv a
